@@ -1,0 +1,24 @@
+//go:build verif
+
+// Thin exports for the verification harness (/verif/harness/cmd/db). No logic.
+package server
+
+import (
+	"github.com/oxia-db/oxia/proto"
+	"github.com/oxia-db/oxia/server/kv"
+)
+
+// VerifSecondaryIndexGet is secondaryIndexGet (what leaderController.Read calls when SecondaryIndexName is set).
+func VerifSecondaryIndexGet(req *proto.GetRequest, db kv.DB) (*proto.GetResponse, error) {
+	return secondaryIndexGet(req, db)
+}
+
+// VerifSecondaryIndexList is newSecondaryIndexListIterator (leaderController.list with SecondaryIndexName).
+func VerifSecondaryIndexList(req *proto.ListRequest, db kv.DB) (kv.KeyIterator, error) {
+	return newSecondaryIndexListIterator(req, db)
+}
+
+// VerifSecondaryIndexRangeScan is newSecondaryIndexRangeScanIterator (leaderController.RangeScan with SecondaryIndexName).
+func VerifSecondaryIndexRangeScan(req *proto.RangeScanRequest, db kv.DB) (kv.RangeScanIterator, error) {
+	return newSecondaryIndexRangeScanIterator(req, db)
+}
